@@ -14,7 +14,7 @@ def run_tf(c, mode):
     pin_vectors()
     wd = c.workdir()
     allrecs = []
-    builds = ["std-rel", "nounroll-rel"] + (["std-dbg"] if c.thorough else [])
+    builds = ["std-rel", "nounroll-rel", "std-dbg"] + (["nosimd-dbg"] if c.thorough else [])
     for b in builds:
         binary = vlib.build(b)
         trace = os.path.join(wd, "tf-%s.ndjson" % b)
